@@ -1074,6 +1074,12 @@ orc_compiler_rewrite_vars (OrcCompiler *compiler)
       if (compiler->vars[var].vartype == ORC_VAR_TYPE_DEST) {
         compiler->vars[var].load_dest = TRUE;
       }
+      if (compiler->vars[var].vartype == ORC_VAR_TYPE_ACCUMULATOR) {
+        /* accumulators are only summed into; no backend nor the emulator
+         * can read one back */
+        ORC_COMPILER_ERROR(compiler,"using accumulator var as source at line %d", insn->line);
+        compiler->result = ORC_COMPILE_RESULT_UNKNOWN_PARSE;
+      }
       if (compiler->vars[var].vartype == ORC_VAR_TYPE_SRC ||
           compiler->vars[var].vartype == ORC_VAR_TYPE_DEST ||
           compiler->vars[var].vartype == ORC_VAR_TYPE_CONST ||
